@@ -111,7 +111,7 @@ Qed.
 Theorem target_read_rt us n :
   target_ok us n = true -> read_target (bs_esc_top (target_special us) n) = Some (n, []).
 Proof.
-  unfold target_ok. intros H. apply andb_true_iff in H as [H Ht]. apply andb_true_iff in H as [Hb Hf].
+  unfold target_ok. intros H. apply andb_true_iff in H as [H _]. apply andb_true_iff in H as [H Ht]. apply andb_true_iff in H as [Hb Hf].
   unfold read_target. destruct n as [|c r]; [discriminate|]. cbn [bs_esc_top]. cbn in Ht.
   apply negb_true_iff in Ht. rewrite Ht.
   apply read_word_rt. apply (ok_chars_spec (tgt_char_ok us)); try assumption. reflexivity.
@@ -120,7 +120,7 @@ Qed.
 Theorem dep_read_rt us n :
   dep_ok us n = true -> read_dep (bs_esc_top (dep_special us) n) = Some (n, []).
 Proof.
-  unfold dep_ok. intros H. apply andb_true_iff in H as [H Ht]. apply andb_true_iff in H as [Hb Hf].
+  unfold dep_ok. intros H. apply andb_true_iff in H as [H _]. apply andb_true_iff in H as [H Ht]. apply andb_true_iff in H as [Hb Hf].
   unfold read_dep. destruct n as [|c r]; [discriminate|]. cbn [bs_esc_top]. cbn in Ht.
   apply negb_true_iff in Ht. rewrite Ht.
   apply read_word_rt. apply (ok_chars_spec (dep_char_ok us)); try assumption. reflexivity.
